@@ -156,3 +156,12 @@ func globalName(v ssa.Value) string {
 	}
 	return g.Name()
 }
+
+// fieldNameOf returns the name of the field a FieldAddr selects.
+func fieldNameOf(fa *ssa.FieldAddr) string {
+	st, ok := fa.X.Type().Underlying().(*types.Pointer).Elem().Underlying().(*types.Struct)
+	if !ok {
+		return ""
+	}
+	return st.Field(fa.Field).Name()
+}
